@@ -1268,10 +1268,11 @@ fn kerning_at_location<'a>(
     font_info: &'a FontInfo,
     location: &NormalizedLocation,
 ) -> Option<Cow<'a, Kerns>> {
-    let our_id = font_info
-        .master_positions
-        .iter()
-        .find_map(|(id, pos)| (pos == location).then_some(id))?;
+    // the first master at this location in source order; two masters can share a location
+    // and master_positions is a HashMap
+    let our_id = font_info.font.masters.iter().find_map(|master| {
+        (font_info.master_positions.get(&master.id) == Some(location)).then_some(&master.id)
+    })?;
 
     // Check if this master has linked metrics via "Link Metrics With Master" or
     // "Link Metrics With First Master" custom parameters.
